@@ -190,7 +190,7 @@ theorem emsg_in_segment (s : Sched) (hi : 0 < s.interval) (repTs : Int) (g : Seg
     simp only [mkEmsg]
     rw [← this.2.1]
     refine ⟨this.1, this.2.2.1, this.2.2.2.1, this.2.2.2.2, ?_, ?_, ?_⟩ <;> trivial
-  · simp only [hin, if_false] at hl
+  · simp only [hin] at hl
     subst hl
     cases hx
 
@@ -217,7 +217,7 @@ theorem emsg_time_resolves (s : Sched) (hi : 0 < s.interval) (repTs : Int) (g : 
       trivial
     · intro hv
       simp only [hv, if_false, and_self]
-  · simp only [hin, if_false] at hl
+  · simp only [hin] at hl
     subst hl
     cases hx
 
